@@ -284,11 +284,17 @@ class LoopGen:
             self.features.add('comp-enumerate-discard')
         inner.update(new)
         elt = self.expr_R(inner, 2) if elt_ty == 'R' else self.expr_B(inner, 1)
-        if elt_ty == 'R' and r.random() < 0.15:
-            # a nested comprehension that shadows a target
+        if elt_ty == 'R' and r.random() < 0.3:
+            # a nested comprehension that shadows a target, through a flat or a nested destructuring pattern
             sh = r.choice(list(new))
-            elt = Node('sum', Node('comp', [(PV(sh), V(ys))], Node('op2', 'mul', V(sh), lit(r.choice(MULS)))))
-            self.features.add('comp-shadow')
+            if r.random() < 0.5:
+                elt = Node('sum', Node('comp', [(PV(sh), V(ys))], Node('op2', 'mul', V(sh), lit(r.choice(MULS)))))
+                self.features.add('comp-shadow')
+            else:
+                g2, f2 = self.fresh('g'), self.fresh('f')
+                elt = Node('sum', Node('comp', [(PT(PV(g2), PT(PV(sh), PV(f2))), Node('enumerate', Node('zip', [V(ys), V(ys)])))],
+                                       Node('op2', 'mul', V(sh), Node('op2', 'add', V(f2), lit(r.choice(MULS))))))
+                self.features.add('comp-shadow-nested-pattern')
         return Node('comp', gens, elt)
 
     def anyall(self, sc, lists):
